@@ -58,6 +58,12 @@ func (g *gen) rejectedRow(f *sfeed, name string) (srow, string) {
 	}
 	// make ids fresh so that a rejected row never collides with a valid one
 	blank := func(c string) (srow, string) { r[c] = ""; return r, "blank " + c }
+	if len(t.cols) > 1 && g.coin(0.12) { // a record of blank cells only (",,,"): a row like any other, rejected for its missing values
+		for k := range r {
+			r[k] = ""
+		}
+		return r, "all cells blank"
+	}
 	switch name {
 	case "agency.txt":
 		r["agency_id"] = "REJ"
@@ -512,7 +518,13 @@ func engineStatic(which string) engineFn {
 					if !reflect.DeepEqual(cells, w.RowContent) {
 						ctx.violate("c09-warning", fmt.Sprintf("warning for row %d carries cells %q, the row's cells are %q", w.RowNumber, w.RowContent, cells), rp)
 					}
-					if tA.rows[w.RowNumber-1]["agency_id"] != "REJ" {
+					allBlank := true
+					for _, v := range tA.rows[w.RowNumber-1] {
+						if v != "" {
+							allBlank = false
+						}
+					}
+					if tA.rows[w.RowNumber-1]["agency_id"] != "REJ" && !allBlank {
 						ctx.violate("c09-warning", fmt.Sprintf("warning for row %d, which is not a rejected row", w.RowNumber), rp)
 					}
 				}
@@ -657,7 +669,7 @@ func engineStatic(which string) engineFn {
 				odd := ff.clone() // rows with other exception types must neither create nor stretch a service
 				oc := odd.table("calendar_dates.txt")
 				for k := g.r.Intn(4); k > 0; k-- {
-					oc.rows = append(oc.rows, srow{"service_id": g.pick(append(svcIDs, "GHOST")), "date": g.pick([]string{"19990101", "20991231"}), "exception_type": g.pick([]string{"0", "3", "x"})})
+					oc.rows = append(oc.rows, srow{"service_id": g.pick(append(svcIDs, "GHOST")), "date": g.pick([]string{"19990101", "20991231"}), "exception_type": g.pick([]string{"0", "3", "x", "01", "+1", "257", "258", "513", "02", "+2", "001", "-254", " 1", "1 ", "1.0"})})
 				}
 				// well-formed digits that name no day: such rows are rejected (neither create nor stretch nor add)
 				imp := ff.clone()
